@@ -271,6 +271,14 @@ def check_sizes(ctx, ht, rule, select=lambda f: True):
             ev = RoleEval(P, s.func.module, res)
             v = ev.ev(d)
             if v is None:
+                # a factor chosen in the arms of an `if`: one formula per arm
+                from ..sizerules import expand_variants
+                vs = [RoleEval(P, s.func.module, res).ev(x) for x in expand_variants(s.func, d)]
+                want_any = (4 * ev.atom('COUNT[XL]') * ev.atom('COUNT[IL]'), 4 * ev.atom('COUNT[TRACE]'))
+                if vs and all(x is not None for x in vs):
+                    badv = [x for x in vs if x not in want_any]
+                    v = badv[0] if badv else vs[0]
+            if v is None:
                 raise AnalysisError('cannot normalise the header-array length `%s` in %s' % (U(d)[:80], s.func.qualname))
             want3 = 4 * ev.atom('COUNT[XL]') * ev.atom('COUNT[IL]')
             want2 = 4 * ev.atom('COUNT[TRACE]')
